@@ -1,6 +1,7 @@
 package main
 
 import (
+	"os"
 	"path/filepath"
 	"strconv"
 	"strings"
@@ -34,6 +35,7 @@ func init() {
 				}
 				return ""
 			})
+			c.engineTV(tvN(c), "cut")
 			c.exhaustive = true
 		},
 	}
@@ -57,6 +59,7 @@ func init() {
 				}
 				return ""
 			})
+			c.engineTV(tvN(c), "catch,cut")
 			c.exhaustive = true
 		},
 	}
@@ -81,6 +84,7 @@ func init() {
 				}
 				return ""
 			})
+			c.engineTV(tvN(c), "db")
 			c.exhaustive = true
 		},
 	}
@@ -105,6 +109,7 @@ func init() {
 				}
 				return ""
 			})
+			c.engineTV(tvN(c), "bag")
 			c.exhaustive = true
 		},
 	}
@@ -136,6 +141,21 @@ func init() {
 			c.engineTV(n, "")
 		},
 	}
+}
+
+func init() {
+	// development aid: trace validation only, features from VCHECK_FEAT, size from VCHECK_N
+	plans["TVX"] = &plan{level: "model_checking", rule: "dev", run: func(c *checkCtx) {
+		n, _ := strconv.Atoi(os.Getenv("VCHECK_N"))
+		c.engineTV(n, os.Getenv("VCHECK_FEAT"))
+	}}
+}
+
+func tvN(c *checkCtx) int {
+	if c.tier == "thorough" {
+		return 8000
+	}
+	return 400
 }
 
 // engineTV: U3 for the engine family with the given generator features.
